@@ -16,7 +16,7 @@ MODEL_DEPS = ["Base/Chars.v", "Model/Lexer.v", "Model/PText.v", "Model/Parser.v"
               "Gen/CharClass.v"]
 
 SIGMA_CORE = ["a", "1", "0", " ", "\n", "@", "#", "~", "{", "}", "(", ")", "%", "|", "-", "="]
-SIGMA_MORE = [">", ":", "/", ".", "\\", "&", "?", "+", "[", "]", "*", ",", "\t", "\r", "é", "名", " ", "º"]
+SIGMA_MORE = [">", ":", "/", ".", "\\", "&", "?", "+", "[", "]", "*", ",", "\t", "\r", "é", "名", " ", "º", "¿"]
 
 # the model is run with the configuration of the code as it stands (d = debug assertions)
 PCFG_DEBUG = "d"
@@ -162,6 +162,22 @@ def frontmatter_family(maxlines):
             for nl in ("\n", "\r\n"):
                 out.append(nl.join(combo))
                 out.append(nl.join(combo) + nl)
+    return out
+
+
+def fm_placements():
+    """a YAML front matter after nothing / blank lines / blanks, followed by different kinds of content,
+    with LF and CRLF, ASCII and multi-byte: offsets of everything after it must stay true to the input"""
+    out = []
+    bodies = ["a: 1", "名: é", "a: 1\nb: [x, y]", "t: \"é\"", "", "[", "a: 1\n# c"]
+    prefixes = ["", "\n", "\n\n", " \n", "\t\n", "\r\n", "\n \n", " \n", "x\n"]
+    tails = ["", "x", "@名{1%g} é", ">> k: v", "= s\nstep @a", "\n\n> t", "~名(x)", "@¿", "a -- c\nb"]
+    for pre in prefixes:
+        for b in bodies:
+            for t in tails:
+                for nl in ("\n", "\r\n"):
+                    doc = pre + "---" + nl + (b.replace("\n", nl) + nl if b else "") + "---" + nl + t.replace("\n", nl)
+                    out.append(doc)
     return out
 
 
